@@ -29,7 +29,7 @@ WALK = dict(global_unique=True, outputs_produced_inside=True, no_input_as_output
 
 
 def plan(tier, seed, budget):
-    n = int((2400 if tier == "quick" else 100000) * budget)
+    n = int((6400 if tier == "quick" else 100000) * budget)
     shards = 16 if tier == "quick" else 64
     return [{"n": max(1, n // shards)} for _ in range(shards)]
 
